@@ -56,3 +56,58 @@ Definition interval_conv (kind u : Z) : option (Z -> option Z) :=
   else if kind =? 3 then Some (fun v => Some (pack_mdn 0 (dt_days v) (dt_millis v * 1000000)))
   else if kind =? 4 then Some (fun v => Some v)
   else None.
+
+(* ---------------------------------------------------------------- text form (arrow-cast/src/display.rs)
+   MillisecondsFormatter / NanosecondsFormatter (time part of Interval(DayTime) / Interval(MonthDayNano)),
+   the DisplayIndex impls of the three interval types, and duration_fmt! (DurationFormat::Pretty).
+   Pure integer decompositions with Rust's truncating / and %. *)
+From Coq Require Import Ascii String.
+From AV Require Import Model.C13_Text.
+
+Fixpoint str (s : string) : list Z :=
+  match s with EmptyString => [] | String c r => Z.of_N (N_of_ascii c) :: str r end.
+
+(* hours / mins / secs / sub-second fields of a count v of sub-second units, U units per second *)
+Definition hms_hours (U v : Z) : Z := Z.quot (Z.quot (Z.quot v U) 60) 60.
+Definition hms_mins (U v : Z) : Z := Z.quot (Z.quot v U) 60 - hms_hours U v * 60.
+Definition hms_secs (U v : Z) : Z := Z.quot v U - Z.quot (Z.quot v U) 60 * 60.
+Definition hms_sub (U v : Z) : Z := Z.rem v U.
+
+(* Display for MillisecondsFormatter (U = 1000, W = 3) / NanosecondsFormatter (U = 10^9, W = 9) *)
+Definition hms_part (U W : Z) (prefix : list Z) (v : Z) : list Z :=
+  let hours := hms_hours U v in let mins := hms_mins U v in let secs := hms_secs U v in let sub := hms_sub U v in
+  let p1 := if hours =? 0 then [] else prefix ++ fmt_int hours ++ str " hours" in
+  let pre1 := if hours =? 0 then prefix else str " " in
+  let p2 := if mins =? 0 then [] else pre1 ++ fmt_int mins ++ str " mins" in
+  let pre2 := if mins =? 0 then pre1 else str " " in
+  let p3 := if (secs =? 0) && (sub =? 0) then []
+            else pre2 ++ (if (secs <? 0) || (sub <? 0) then [MINUS] else []) ++ fmt_int (Z.abs secs) ++ [POINT]
+                 ++ pad_left (fmt_int (Z.abs sub)) (Z.to_nat W) ZERO ++ str " secs" in
+  p1 ++ p2 ++ p3.
+
+Definition fmt_daytime (d ms : Z) : list Z :=
+  if (d =? 0) && (ms =? 0) then str "0 secs"
+  else (if d =? 0 then [] else fmt_int d ++ str " days")
+       ++ (if ms =? 0 then [] else hms_part 1000 3 (if d =? 0 then [] else str " ") ms).
+
+Definition fmt_mdn (m d n : Z) : list Z :=
+  if (m =? 0) && (d =? 0) && (n =? 0) then str "0 secs"
+  else let p1 := if m =? 0 then [] else fmt_int m ++ str " mons" in
+       let pre1 := if m =? 0 then [] else str " " in
+       let p2 := if d =? 0 then [] else pre1 ++ fmt_int d ++ str " days" in
+       let pre2 := if d =? 0 then pre1 else str " " in
+       p1 ++ p2 ++ (if n =? 0 then [] else hms_part 1000000000 9 pre2 n).
+
+(* Interval(YearMonth): floor(v / 12) years, v - 12 * years mons (computed in f64, exact for i32) *)
+Definition fmt_yearmonth (v : Z) : list Z := fmt_int (v / 12) ++ str " years " ++ fmt_int (v mod 12) ++ str " mons".
+
+(* duration_fmt!(f, v, scale): unit u (0 s, 1 ms, 2 us, 3 ns), scale = 3 * u decimals *)
+Definition fmt_duration_pretty (u v : Z) : list Z :=
+  let P := 10 ^ (3 * u) in
+  let secs0 := Z.quot v P in let mins0 := Z.quot secs0 60 in let hours0 := Z.quot mins0 60 in let days := Z.quot hours0 24 in
+  let subsec := v - secs0 * P in
+  let secs := secs0 - mins0 * 60 in let mins := mins0 - hours0 * 60 in let hours := hours0 - days * 24 in
+  let head := fmt_int days ++ str " days " ++ fmt_int hours ++ str " hours " ++ fmt_int mins ++ str " mins " in
+  if u =? 0 then head ++ fmt_int secs ++ str " secs"
+  else if subsec <? 0 then head ++ [MINUS] ++ fmt_int (Z.abs secs) ++ [POINT] ++ pad_left (fmt_int (Z.abs subsec)) (Z.to_nat (3 * u)) ZERO ++ str " secs"
+  else head ++ fmt_int secs ++ [POINT] ++ pad_left (fmt_int subsec) (Z.to_nat (3 * u)) ZERO ++ str " secs".
